@@ -1,7 +1,8 @@
 """C05 — generated programs are closed and respect scoping and mutability rules (partial).
 
 Proof side : lean/Heph/Props/C05.lean — `closed_sound`/`closed_complete` (the scope walker `closedCheck` decides the
-             declarative `Closed`), `assignableVars_nonfinal`, `word_fresh`, `identifiers_distinct`,
+             declarative `Closed`), `capture_sound`/`capture_complete`/`closed_capturesOK` (`captureCheck` decides javac's
+             capture rule `CapturesOK`; the generator's rule implies it), `assignableVars_nonfinal`, `word_fresh`, `identifiers_distinct`,
              `identifier_not_reserved` (both removal variants; counterexample for the code as it is on the regenerated
              keyword tables).  `harness/regen_c05.py` rewrites lean/Heph/Generated/Keywords.lean before the build.
 Streams    :
@@ -17,11 +18,30 @@ Streams    :
   mutants      the checker is not vacuous: every mutant (unbound variable/function/assignment target, everything
                final, every class abstract, duplicated declaration, a declared name made a keyword) of explored
                programs must be rejected (else harness error).
+  direct       DIRECT decision-point stream (harness/c05_direct.py): the real Generator in crafted contexts, a FIXED plan of
+               cases (host: method of the parameterized class Cls<N, U> / parameterized function / plain function; chain
+               of nested functions and lambdas entered through the real gen_func_decl / gen_lambda; script of one to three
+               real routines; expected type: bare type variable, type variables at depth 1 and 2, function type, ground;
+               generator seed; switches; policies), CPU cap per case.  Judges of the RESULT STATE: `closed.check` and the
+               verified capture checker (`Capture.captureCheck`: javac's effectively-final rule) on the fragment; on the
+               live objects: type variables of every created declaration are introduced by an enclosing declaration
+               (where did `_gen_matching_func` put the helper?), Java capture (no read of a non-final / assignment of any
+               local of an enclosing body inside a lambda or nested function), `namespace` / `_inside_java_lambda` /
+               `declaration_namespace` / `_in_super_call` after every routine equal their values before it.  Negative
+               controls (helper forced to top level for each type-variable shape; flag dropped after a lambda) must be
+               flagged, else harness error.
   programs     `pipeline.run_many` over languages x switch settings x seeds; the verified `closed.check` runs on the
                'gen' and the 'erase' export of every program (a rejection IS a failing input: replay = generator
                tuple + stage + path + reason); every call of `_get_assignable_vars` is recorded
                (plugin_assignable), judged against the declarations (target non-final, nothing inside a Java lambda)
-               and compared with the Lean model `assignableVars`.
+               and compared with the Lean model `assignableVars`.  The plan is fixed and the budget is CPU time summed
+               over the workers (plugin_scope; per-program CPU cap; wall clock only as a safety net); every third program
+               runs with generation policies (cfg.prob.* / cfg.limits.*) that favour lambdas, direct calls and side
+               effects; `captureCheck` runs on every export; `namespace` / `_inside_java_lambda` are checked after every
+               gen_lambda / gen_func_decl / _gen_func_ref_lambda / gen_class_decl of every run; evidence per language
+               (`scoping_machinery_per_language`): programs, lambdas, nested lambdas, nested functions, member functions of
+               parameterized classes, helpers made by _gen_matching_func / _gen_matching_class by expected-type shape and
+               placement.
 """
 import collections
 import json
